@@ -54,7 +54,10 @@ class ResolveOuterVars(ast.NodeTransformer):
             if isinstance(scope, ScopeFn):
                 has = scope.defined
             elif isinstance(scope, ScopeLet):
-                has = set(scope.bindings.keys())
+                # A name mapped to itself isn't a `let` binding: it's the
+                # marker that `(global NAME)` inside the `let` leaves behind
+                # (see `ScopeLet.define_nonlocal`).
+                has = {k for k, v in scope.bindings.items() if k != v}
             elif isinstance(scope, ScopeGlobal):
                 res = []
                 if not scope.defined.issuperset(undefined):
